@@ -284,4 +284,70 @@ QuintMapPinOK(e) ==
   /\ e.first = FirstQ(e.face) /\ e.layout = Layout(e.face)
   /\ \A q \in 0..4 : e.q2s[q + 1] = QuintantToSegment(q, e.face) /\ e.s2q[q + 1] = SegmentToQuintant(q, e.face)
   /\ e.first = FirstQuintant[e.face + 1]       \* the ID layout uses the same table
+---------------------------------------------------------------------------
+(* C14: total API.  Demand = what the property requires of a call on a class of arguments;      *)
+(* CallOK judges one recorded call (outcome and payload) executed in a child process.           *)
+
+InRange(r) == r >= -1 /\ r <= MaxRes
+IdStatus(q) == IF ~Decode(q).ok THEN "invalid" ELSE IF Canonical(q) THEN "canonical" ELSE "alias"
+ByStatus(q) == CASE IdStatus(q) = "invalid" -> "err"       \* not a cell and aliases none: must be rejected
+                 [] IdStatus(q) = "canonical" -> "ok"
+                 [] OTHER -> "either"                        \* rejected, or treated as the canonical cell it aliases
+ResOf(q) == Decode(q).cell.res
+Worst(a, b) == IF a = "err" \/ b = "err" THEN "err" ELSE IF a = "either" \/ b = "either" THEN "either" ELSE "ok"
+RECURSIVE WorstAll(_, _)
+WorstAll(ids, k) == IF k > Len(ids) THEN "ok" ELSE Worst(ByStatus(ids[k]), WorstAll(ids, k + 1))
+
+Demand(fn, ids, r, dflt, coordOK) ==
+  LET q == IF Len(ids) >= 1 THEN ids[1] ELSE Zero32 IN
+  CASE fn \in {"get_resolution", "cell_area", "get_num_cells", "get_res0_cells", "u64_to_hex"} -> "ok"
+    [] fn \in {"cell_to_lonlat", "cell_to_boundary"} -> ByStatus(q)
+    [] fn = "cell_to_parent" ->
+         IF IdStatus(q) = "invalid" THEN "err"
+         ELSE LET t == IF dflt THEN ResOf(q) - 1 ELSE r
+              IN IF t < -1 \/ t > ResOf(q) THEN "err" ELSE ByStatus(q)
+    [] fn = "cell_to_children" ->
+         IF IdStatus(q) = "invalid" THEN "err"
+         ELSE LET t == IF dflt THEN ResOf(q) + 1 ELSE r
+              IN IF t < ResOf(q) \/ t > MaxRes THEN "err" ELSE ByStatus(q)
+    [] fn = "lonlat_to_cell" -> IF ~InRange(r) THEN "err" ELSE IF coordOK THEN "ok" ELSE "either"
+    [] fn = "uncompact" ->
+         IF ~InRange(r) THEN "err"
+         ELSE IF \E k \in 1..Len(ids) : IdStatus(ids[k]) # "invalid" /\ ResOf(ids[k]) > r THEN "err"
+         ELSE WorstAll(ids, 1)
+    [] fn = "compact" -> "either"
+    [] OTHER -> "either"
+
+\* payload of a successful call
+PayloadOK(e) ==
+  LET q == IF Len(e.ids) >= 1 THEN e.ids[1] ELSE Zero32
+      alias == Len(e.ids) >= 1 /\ IdStatus(q) = "alias"
+  IN CASE e.fn = "get_resolution" -> e.int \in -1..MaxRes
+       [] e.fn = "cell_to_parent" ->
+            LET t == IF e.dflt THEN ResOf(q) - 1 ELSE e.r
+            IN /\ Len(e.out) = 1 /\ IsCanonRes(e.out[1], t)
+               /\ (alias /\ e.canon_ok) => e.out = e.canon_out
+               /\ Drift(IsDescId(Canon(q), e.out[1]), "parent of alias not on the prefix tree")
+       [] e.fn = "cell_to_children" ->
+            LET t == IF e.dflt THEN ResOf(q) + 1 ELSE e.r
+            IN /\ \A i \in 1..Len(e.out) : IsCanonRes(e.out[i], t)
+               /\ Len(e.out) = NumDescInt(ResOf(q), t) /\ NoRepeats(e.out)
+               /\ (alias /\ e.canon_ok) => e.out = e.canon_out
+       [] e.fn = "get_res0_cells" -> Len(e.out) = 12 /\ NoRepeats(e.out) /\ \A i \in 1..12 : IsCanonRes(e.out[i], 0)
+       [] e.fn = "lonlat_to_cell" -> Len(e.out) = 1 /\ IsCanonRes(e.out[1], e.r)
+       [] e.fn \in {"cell_to_lonlat", "cell_to_boundary"} ->
+            /\ e.finite /\ e.lat_in_range
+            /\ (alias /\ e.canon_ok) => e.same_as_canon
+       [] e.fn = "uncompact" -> \A i \in 1..Len(e.out) : IsCanonRes(e.out[i], e.r)
+       [] e.fn = "compact" ->
+            \A i \in 1..Len(e.out) : (\E k \in 1..Len(e.ids) : e.ids[k] = e.out[i]) \/ Canonical(e.out[i])
+       [] e.fn \in {"cell_area", "get_num_cells"} -> e.finite
+       [] OTHER -> TRUE
+
+CallOK(e) ==
+  /\ e.outcome \in {"ok", "err"}                        \* never panic / abort / oom / timeout
+  /\ LET d == Demand(e.fn, e.ids, e.r, e.dflt, e.coord_ok)
+     IN /\ (d = "ok" => e.outcome = "ok")
+        /\ (d = "err" => e.outcome = "err")
+  /\ e.outcome = "ok" => PayloadOK(e)
 =============================================================================
